@@ -310,19 +310,29 @@ theorem execFailed_rec {s : State} (h : Rec s) (hcore : Core s) (hfix : s.cfg.fi
   exact hq.conclude (markFailed_getD _ r.id) fFailed_facts (fun t ht => fFailed_tok ht)
     (hq.cmdFinal q.core (by rw [hex]; exact hr) hk q.noLive)
 
-/-- Does this call of `execute()` complete the command? -/
-def execCompletes (s : State) (c : Cmd) : Bool :=
-  !((specOf s.cfg c.name).failAt == some c.iters) && (specOf s.cfg c.name).dur != 0 &&
-    decide (c.iters + 1 ≥ (specOf s.cfg c.name).dur)
-
 def execG (s : State) (c : Cmd) (o : Cmd) : Cmd :=
   { o with iters := c.iters + 1, complete := o.complete || execCompletes s c }
 
 theorem execObj_objs (s : State) (c : Cmd) : (execObj s c).1.objs = modObj s.objs c.serial (execG s c) := rfl
 
-theorem execObj_fails (s : State) (c : Cmd) (h : (execObj s c).2 = true) : execCompletes s c = false := by
-  have : ((specOf s.cfg c.name).failAt == some c.iters) = true := h
-  simp [execCompletes, this]
+theorem markDone_withTrack (s : State) (r : Req) (T : List Track) :
+    markDone { s with track := T } r = { markDone s r with track := T } := by
+  unfold markDone
+  split <;> (try split) <;> rfl
+
+/-- The Failed state of `_execute_command`'s handler and the finalize of the clean-up commute. -/
+theorem markFailed_finalize_comm (s : State) (r : Req) (c : Cmd) (i : Nat) :
+    (markFailed (finalizeCommand s r c) i).getD (finalizeCommand s r c) =
+      finalizeCommand ((markFailed s i).getD s) r c := by
+  have h1 : (finalizeCommand s r c).tracking = s.tracking := by simp [finalizeCommand]
+  have h2 : (finalizeCommand s r c).track = s.track := by simp [finalizeCommand]
+  rcases markFailed_getD (finalizeCommand s r c) i with ⟨a, e⟩ | ⟨a, e⟩ <;>
+    rcases markFailed_getD s i with ⟨b, e'⟩ | ⟨b, e'⟩
+  · rw [e, e']
+  · rw [h1, b] at a; cases a
+  · rw [h1, b] at a; cases a
+  · rw [e, e', h2]
+    exact (markDone_withTrack (finalizeObj s c) r (modTrack s.track i fFailed)).symm
 
 theorem markCompleted_isSome (s : State) (i : Nat) (ht : s.tracking = true → i ∈ s.track.map (·.id)) :
     (markCompleted s i).isSome = true := by
@@ -364,8 +374,52 @@ theorem afterExec_rec {s : State} (h : Rec s) (hcore : Core s) (hfix : s.cfg.fix
     have : execObj s c = ((execObj s c).1, true) := by rw [← hf]
     rw [this]
     simp only [afterExec]
-    rw [← hos]
-    exact execFailed_rec (h.exec1 c (execObj_fails s c hf)) h3 hfix3 (htr.of_view hv) hr3 hk ho (by rw [hoc, hcan])
+    cases hcp : execCompletes s c with
+    | false =>
+      rw [← hos]
+      exact execFailed_rec (h.exec1 c hcp) h3 hfix3 (htr.of_view hv) hr3 hk ho (by rw [hoc, hcan])
+    | true =>
+      -- `set_complete()` and then the exception: the clean-up finalizes the complete instance (no Cancelled
+      -- state), the handler of `_execute_command` records Failed
+      have hget : getObj (execObj s c).1.objs c.serial = some (execG s c c) := by
+        rw [execObj_objs, show modObj s.objs c.serial (execG s c) =
+          s.objs.map (fun o => if o.serial == c.serial then execG s c o else o) from rfl,
+          getObj_map _ _ (by intro o; split <;> rfl), getObj_of_mem hcore.serials hc]
+        simp
+      have hoe : o = execG s c c := by
+        have := getObj_of_mem h3.serials ho
+        rw [hos, hget] at this
+        injection this with this
+        exact this.symm
+      have hfl : findLive (execObj s c).1.objs k = some (execG s c c) := by
+        cases hx : findLive (execObj s c).1.objs k with
+        | none => exact absurd (by rw [hon, hn]) (findLive_none hx o ho hom)
+        | some o' =>
+          obtain ⟨ho', hm', hn'⟩ := findLive_some hx
+          have hs : o'.serial = o.serial :=
+            h3.excl o' ho' o ho hm' hom (by rw [hn', hon, hn]; exact conflict_self _ _)
+          rw [serial_inj h3.serials ho' ho hs, hoe]
+      unfold execFailed
+      rw [hget]
+      have hgc : (execG s c c).cancelled = false := hcan
+      have hgd : (execG s c c).complete = true := by simp [execG, hcp]
+      simp only [hgc, Bool.not_false, if_true]
+      have hcc : cancelCommand (execObj s c).1 r = finalizeCommand (execObj s c).1 r (execG s c c) := by
+        unfold cancelCommand
+        rw [hk]
+        simp only [hfl, hgd, Bool.not_true, Bool.false_eq_true, if_false]
+      rw [hcc, markFailed_finalize_comm]
+      have hmk := markFailed_getD (execObj s c).1 r.id
+      obtain ⟨f1, f2, f3, _, _, _, _, _, _⟩ := hmk.fields
+      have hvF : view ((markFailed (execObj s c).1 r.id).getD (execObj s c).1) = view s := by
+        cases hmf : markFailed (execObj s c).1 r.id with
+        | none => simpa using hv
+        | some sF =>
+          obtain ⟨hv', _, _, _⟩ := markFailed_frame _ sF r.id hmf
+          simp [hv', hv]
+      show Rec (finalizeCommand _ r c)
+      exact h.kill hcore (execG s c) hc hm hr (by rw [hk, hn]) (by intro o; simp [execG]) (by rw [f1, execObj_objs])
+        hvF (by rw [f2, hd]) (by rw [f3]; rfl) (hmk.trackStep s rfl rfl) fFailed_facts (fun t ht => fFailed_tok ht)
   | false =>
     have : execObj s c = ((execObj s c).1, false) := by rw [← hf]
     rw [this]
